@@ -326,6 +326,21 @@ func runCDoc(args []string) {
 		nodes += strings.Count(ev["src"].(string), ":")
 		tw.emit(ev)
 	}
+	if fl.str("probes", "") != "" {
+		// fixed inputs for defects recorded in known_findings.json: the check reports them as
+		// KNOWN-FINDING by their probe id (and as a violation again if they ever change shape)
+		for _, pr := range docProbes {
+			a, err := avFromJSON([]byte(pr[1]))
+			if err != nil {
+				fatal("probe %s: %v", pr[0], err)
+			}
+			ev := docEvent(pr[1], docFromAV(a), "json", R)
+			ev["probe"] = pr[0]
+			emit(ev)
+		}
+		writeSummary(fl.str("summary", ""), obj{"events": tw.n})
+		return
+	}
 	if cf := fl.str("cases", ""); cf != "" {
 		// replay: the exact source text and the document it denotes
 		readNDJSON(cf, func(_ int, c obj) {
@@ -335,6 +350,9 @@ func runCDoc(args []string) {
 			}
 			ev := docEvent(c["src"].(string), nil, c["style"].(string), R)
 			ev["doc"] = c["doc"]
+			if pid, ok := c["probe"].(string); ok && pid != "" {
+				ev["probe"] = pid
+			}
 			emit(ev)
 		})
 	} else {
@@ -351,3 +369,12 @@ func runCDoc(args []string) {
 	writeSummary(fl.str("summary", ""), obj{"events": tw.n, "mapping_entries": nodes, "samples": samples})
 }
 
+
+// docProbes: inputs that exhibit recorded, unrepaired defects (see /verif/known_findings.json).
+var docProbes = [][2]string{
+	{"F08-merge-key-in-unknown-field", `{"steps":[{"trigger":"t","x":{"<<":"v","a":1}}]}`},
+	{"F08-merge-key-in-env-block", `{"env":{"<<":"v"},"steps":[{"command":"c"}]}`},
+	{"F09-null-label-with-name", `{"steps":[{"command":"c","label":null,"name":"n"}]}`},
+	{"F09-empty-key-with-id", `{"steps":[{"command":"c","key":"","id":"i"}]}`},
+	{"F09-empty-id-with-identifier", `{"steps":[{"command":"c","id":"","identifier":"x"}]}`},
+}
